@@ -783,6 +783,12 @@ def build_case(ch, tier):
                     add(a5)
                     if not usex and tgt.get('views'):
                         add({'at': AT_locviews, 'form': 'DW_FORM_sec_offset', 'kind': 'views', 'ref': L})
+                    if ch.bool(0.35):
+                        # a second (third) list-valued location attribute on the same entry, designating a list without view pairs
+                        for at2 in ch.perm([0x40, 0x2a, 0x48, 0x19])[:ch.int(1, 2)]:
+                            L2 = ch.int(0, 50)
+                            if not blk['lists'][L2 % len(blk['lists'])].get('views'):
+                                add({'at': at2, 'form': 'DW_FORM_sec_offset', 'kind': 'loclist', 'ref': L2})
                 if 'rng_block' in cu and ch.bool(0.6):
                     blk = case['rng5'][cu['rng_block']]
                     usex = blk['offset_count'] and ch.bool(0.5)
@@ -806,6 +812,11 @@ def build_case(ch, tier):
                         if ch.bool(0.2) and not tgt.get('views'):
                             a['tail'] = ch.int(1, 5)
                         add(a)
+                    if ch.bool(0.35):
+                        for at2 in ch.perm([0x40, 0x2a, 0x48, 0x19])[:ch.int(1, 2)]:
+                            L2 = ch.int(0, 50)
+                            if not case['loc4'][L2 % len(case['loc4'])].get('views'):
+                                add({'at': at2, 'form': lform, 'kind': 'loclist', 'ref': L2})
                 if ch.bool(0.6):
                     a = {'at': 0x55, 'form': lform, 'kind': 'rnglist', 'ref': ch.int(0, 50)}
                     if ch.bool(0.2):
